@@ -157,9 +157,11 @@ def run(ctx, rep):
             fills = []
             for b2, t2 in E.calls():
                 if "callee" in t2 and re.search(r"::fill_bytes$", callee(t2) + " " + callee_decl(t2).replace(" ", "")) or ("callee" in t2 and callee_decl(t2).endswith("fill_bytes")):
+                    nsl = flow.backward_slice(E, op_place(t["args"][1]))["locals"] | {nonce_local}
                     for a in t2["args"][1:]:
                         bl = flow.base_local(E, op_place(a)) if op_place(a) else None
-                        if bl == nonce_local:
+                        # the buffer that is filled is the nonce itself or the array the nonce is built from
+                        if bl is not None and bl in nsl and bl > E.argc:
                             src = flow.origins(E, op_place(t2["args"][0])) if op_place(t2["args"][0]) else []
                             rng = any(o.kind == "call" and re.search(r"^rand::(rng|thread_rng)$|rand::rngs::", o.data[1]) for o in src)
                             fills.append((b2, rng))
